@@ -267,6 +267,9 @@ package jobs
 //@   modifies wrappedSink.recursionDepth, $hcount
 //@   ensures [C17:a-new-run-starts-with-the-split-latch-released] w.recursionDepth == 0
 //@   ensures [C17:a-new-run-starts-with-the-budget-of-its-handler-reset] len(w.failingEntityHandlers) > 0 ==> $hcount == 0
+// KNOWN FINDING D20 (recorded in /verif/known_findings.json): reset leaves lastError alone, so a run that has nothing to
+// process is recorded with, and re-run because of, the rejection the previous run logged
+//@   ensures [C17:a-new-run-starts-without-the-rejection-recorded-by-the-previous-run] w.lastError == nil
 //@   loop 1
 //@     invariant -1 <= $i && $i < len(w.failingEntityHandlers) && ($i >= 0 ==> $hcount == 0)
 //@     invariant [C17:the-split-latch-is-released-before-the-handlers-are-reset] w.recursionDepth == 0
